@@ -72,7 +72,7 @@ fn audio() -> (Vec<u8>, Vec<u8>, Pcm) {
                     ChanRecipe { kind: Kind::Noise { amp: 12 }, wasted: 0, relation: 0 },
                     ChanRecipe { kind: Kind::Sines { n: 2, amp: 13, noise: 1 }, wasted: 0, relation: 0 },
                 ],
-                seg: 0,
+                seg: 0, ms_mix: 0,
             }
             .expand();
             let bytes = codec::encode_vec(&pcm, &EncOpts::small(64), Front::Samples, &[]).expect("base encode");
